@@ -351,7 +351,11 @@ func TestVerifC04(t *testing.T) {
 		var c c04Case
 		c.Spaces = rapid.IntRange(1, 3).Draw(t, "spaces")
 		spaces := c.Spaces
-		c.Ops = rapid.SliceOfN(rapid.Custom(func(t *rapid.T) c04Op { return c04GenOp(t, spaces) }), 1, vlib.Scale(60, 300)).Draw(t, "ops")
+		// rapid's slice lengths are strongly biased towards short lists: draw a minimum
+		// length first so that long histories are common (elements can still be deleted
+		// while shrinking because the minimum itself shrinks)
+		minOps := rapid.SampledFrom([]int{1, 1, 6, 16, 40}).Draw(t, "minops")
+		c.Ops = rapid.SliceOfN(rapid.Custom(func(t *rapid.T) c04Op { return c04GenOp(t, spaces) }), minOps, vlib.Scale(60, 300)).Draw(t, "ops")
 		fail, rs := c04Run(c)
 		var labels []string
 		for name, on := range map[string]bool{"shared-upper-table": rs.sharedUpper, "remap": rs.remap, "unmap-then-map": rs.unmapThenMap, "inactive-space-op": rs.inactiveOp, "injected-alloc-failure-fired": rs.injectedFired} {
